@@ -26,12 +26,16 @@ def occ_spellings(p, it):
             res.append(([l], None))
             res.append(([l + "=true"], None))
     else:
+        # a value that starts with a dash cannot be written as a separate token (it would read as an option)
+        dashy = val.startswith("-")
         for s in shorts:
-            res.append(([s, val], ("valsep", s[1])))
+            if not dashy:
+                res.append(([s, val], ("valsep", s[1])))
             res.append(([s + val], ("valatt", s[1])))
             res.append(([s + "=" + val], None))
         for l in longs:
-            res.append(([l, val], None))
+            if not dashy:
+                res.append(([l, val], None))
             res.append(([l + "=" + val], None))
     return res
 
